@@ -130,7 +130,11 @@ def sig_ledger(rec, res, v):
 
 def ledger_scenarios(run, scenarios, workers=8, mode="ledger", keep=None):
     for sc in scenarios:
-        nd, n, st = tlc_gen("MCLedger.tla", "Ledger_%s.cfg" % sc, "%s-%s" % (run.pid, sc), workers=workers, timeout=1700)
+        # AliasT (5.9M states, more behaviours than the drivers can hold) is walked at random; the simulator also checks - and so
+        # emits - every completed successor of the states it passes through
+        sim = {"AliasT": {"num": 40000, "depth": 60}}.get(sc)
+        nd, n, st = tlc_gen("MCLedger.tla", "Ledger_%s.cfg" % sc, "%s-%s" % (run.pid, sc), workers=1 if sim else workers, timeout=1700,
+                            simulate=sim, seed=run.seed if sim else None)
         st["scenario"] = sc
         run.add_model(st)
         feed(run, mode, nd, sig_of=sig_ledger, keep=keep)
